@@ -100,6 +100,7 @@ type Engine struct {
 	splitBound int
 	decodeMayFail bool
 	exactBE    bool
+	exactDecLen bool
 	repBounds  map[string][2]int
 	ifaceCands map[string][]types.Type
 	encInfo    map[*T]map[string]*T
@@ -129,6 +130,7 @@ type RunConfig struct {
 	Unwind          int
 	Merge           bool
 	Slice           bool
+	Thorough        bool
 }
 
 func (e *Engine) freshName(base string) string {
@@ -1032,12 +1034,18 @@ func (e *Engine) callMerged(fn *ssa.Function, args []Value, free []Value) (ret V
 	savedGuard, savedLocal := e.guard, e.localLocs
 	savedPcLen, savedAx := len(e.pc), len(e.axioms)
 	_ = savedAx
+	// fresh-name counters must replay identically when the attempt is abandoned and the call re-run in forking mode
+	savedFresh := make(map[string]int, len(e.freshN))
+	for k, v := range e.freshN {
+		savedFresh[k] = v
+	}
 	e.inMerged++
 	defer func() {
 		e.inMerged--
 		e.guard, e.localLocs = savedGuard, savedLocal
 		if r := recover(); r != nil {
 			e.pc = e.pc[:savedPcLen]
+			e.freshN = savedFresh
 			switch x := r.(type) {
 			case mergeAbort:
 				ret, ok, why = nil, false, x.why
@@ -1278,6 +1286,7 @@ func (e *Engine) resetPath() {
 	e.pathLabels = nil
 	e.decodeMayFail = false
 	e.exactBE = false
+	e.exactDecLen = false
 	e.collisionFree = false
 	e.repBounds = map[string][2]int{}
 	e.ifaceCands = map[string][]types.Type{}
